@@ -409,8 +409,19 @@ class QuadLike:
 
 @st.composite
 def post_cases(draw):
-    lay = draw(layouts(max_n=5, max_comp=3))
+    bare = draw(st.booleans())
+    lay = draw(layouts(max_n=5, max_comp=1 if bare else 3))
+    if bare:
+        # a single prior object handed to Posterior directly (no JointPrior in between): its variables are 0..n-1 in order
+        c = lay["comps"][0]
+        order = sorted(range(len(c["idx"])), key=lambda o: c["idx"][o])
+        c["idx"], c["pars"] = [c["idx"][o] for o in order], [c["pars"][o] for o in order]
+    lay["bare"] = bare
     n = lay["n"]
+    owner = {i: (c["kind"], p) for c in lay["comps"] for i, p in zip(c["idx"], c["pars"])}
+    lay["more_thetas"] = [[draw(theta_for(*owner[i]))[0] for i in range(n)] for _ in range(draw(st.integers(1, 3)))]
+    lay["calls"] = draw(st.lists(st.tuples(st.sampled_from(["value", "cost", "gradient", "cost_gradient"]),
+                                           st.integers(0, len(lay["more_thetas"]))), min_size=2, max_size=10))
     lay["centre"] = [draw(st.floats(-3, 3)) for _ in range(n)]
     lay["w"] = [draw(st.sampled_from([0.0, 1.0, 10.0 ** draw(st.floats(-3, 3))])) for _ in range(n)]
     lay["m"] = draw(st.integers(1, 40))
@@ -420,21 +431,52 @@ def post_cases(draw):
 
 def body_posterior(case, ctx):
     comps, n = case["comps"], case["n"]
-    prior = RecPrior(JointPrior([make(c["kind"], c["pars"], c["idx"]) for c in comps], n))
+    if case.get("bare"):
+        c = comps[0]
+        inner = make(c["kind"], c["pars"], c["idx"])
+    else:
+        inner = JointPrior([make(c["kind"], c["pars"], c["idx"]) for c in comps], n)
+    prior = RecPrior(inner)
     like = QuadLike(case["centre"], case["w"])
-    post = Posterior(likelihood=like, prior=prior)
-    th = np.array(case["theta"], dtype=float)
+    thetas = [np.array(t, dtype=float) for t in [case["theta"]] + case.get("more_thetas", [])]
+    # the components' own answers, taken (as copies) from separate objects that the posterior never sees
+    twin = make(comps[0]["kind"], comps[0]["pars"], comps[0]["idx"]) if case.get("bare") else \
+        JointPrior([make(c["kind"], c["pars"], c["idx"]) for c in comps], n)
     with np.errstate(all="ignore"):
-        v, lv, pv = post(th), like(th), prior(th)
-        if v != lv + pv:
-            raise Violation("posterior:value", f"{v!r} != {lv!r} + {pv!r}")
-        if post.cost(th) != -(lv + pv):
-            raise Violation("posterior:cost", f"cost {post.cost(th)!r} != -({lv!r} + {pv!r})")
-        g = np.asarray(post.gradient(th))
-        if not np.array_equal(g, like.gradient(th) + prior.gradient(th)):
-            raise Violation("posterior:gradient", "gradient is not the sum of likelihood and prior gradients")
-        if not np.array_equal(np.asarray(post.cost_gradient(th)), -(like.gradient(th) + prior.gradient(th))):
-            raise Violation("posterior:cost-gradient", "cost_gradient is not the negated sum")
+        want = [(like(t), float(twin(t)), np.array(like.gradient(t), dtype=float, copy=True),
+                 np.array(twin.gradient(t), dtype=float, copy=True)) for t in thetas]
+    post = Posterior(likelihood=like, prior=prior)
+    calls = [("value", 0), ("cost", 0), ("gradient", 0), ("cost_gradient", 0)] + [tuple(c) for c in case.get("calls", [])]
+    with np.errstate(all="ignore"):
+        for step, (what, j) in enumerate(calls):
+            th = thetas[j]
+            lv, pv, lg, pg = want[j]
+            arg = th.copy()
+            if what == "value":
+                v = post(arg)
+                if v != lv + pv:
+                    raise Violation("posterior:value", f"call {step}: {v!r} != {lv!r} + {pv!r}")
+            elif what == "cost":
+                v = post.cost(arg)
+                if v != -(lv + pv):
+                    raise Violation("posterior:cost", f"call {step}: cost {v!r} != -({lv!r} + {pv!r})")
+            elif what == "gradient":
+                g = np.asarray(post.gradient(arg))
+                if not np.array_equal(g, lg + pg):
+                    raise Violation("posterior:gradient", f"call {step} ({'bare ' + comps[0]['kind'] if case.get('bare') else 'joint'} prior): "
+                                                          f"gradient {g.tolist()} is not the sum of likelihood {lg.tolist()} and prior {pg.tolist()} gradients")
+            else:
+                g = np.asarray(post.cost_gradient(arg))
+                if not np.array_equal(g, -(lg + pg)):
+                    raise Violation("posterior:cost-gradient", f"call {step}: cost_gradient {g.tolist()} is not the negated sum {(-(lg + pg)).tolist()}")
+        # the posterior calls must not change what the components themselves answer (each prior's gradient stays the derivative
+        # of its log-density)
+        for t, (lv, pv, lg, pg) in zip(thetas, want):
+            if float(inner(t)) != pv or not np.array_equal(np.asarray(inner.gradient(t), dtype=float), pg):
+                raise Violation("posterior:component-state", "after the posterior calls the prior no longer returns its own value / gradient "
+                                                            f"({np.asarray(inner.gradient(t)).tolist()} vs {pg.tolist()})")
+    ctx.event("bare-prior:" + comps[0]["kind"] if case.get("bare") else "joint-prior")
+    th = thetas[0]
     m, k = case["m"], case["k"]
     prior.draws.clear()
     guesses = post.generate_initial_guesses(n_guesses=k, prior_samples=m)
